@@ -24,9 +24,9 @@ const (
 	pCERbad
 	pCERretx
 	pDWR
-	pReqA // Accounting request, application 3: handler registered by short name "ACR"
-	pReqB // Credit-Control request, application 4: handler registered by index
-	pAns  // Credit-Control answer: only the catch-all applies
+	pReqA  // Accounting request, application 3: handler registered by short name "ACR"
+	pReqB  // Credit-Control request, application 4: handler registered by index
+	pAns   // Credit-Control answer: only the catch-all applies
 	pUnreg // Session-Termination request: only the catch-all applies
 	nPeerMsgs
 	// only in random sequences: base commands under a non-zero application id
